@@ -264,7 +264,7 @@ LEVEL_TEXT = ('Machine-checked proof (Coq 8.16.1), for every schema, every sessi
               '(correct) undo, each refuted by a vm_compute witness and reproduced on real Pony on every run. The model (undo closures as data) is compared '
               'with real Pony + SQLite on scenario, fault-enumeration and random histories on every run, including the exact corrupted states.')
 LEVEL_NOTE = ('Trusted: Coq kernel + vm_compute; the hand-written model and its correspondence harness (one db_session, everything loaded, <= 8 objects per history). '
-              'known_bad is defined by the run itself (a forgetful site was executed and visibly changed something), not by a syntactic class of calls. '
+              'known_bad is defined by the run itself (a forgetful site was executed and visibly changed something), not by a syntactic class of calls; C13_sites_complete: the sites are the eight recorded ones plus TInconsistent (state not in the shape the code asserts; not shown unreachable). '
               '"A later commit writes nothing" follows only through equality of the observed state; commit itself is modelled as bookkeeping (SQL: C15/C16).')
 TECHNIQUE = 'Coq proof of an undo-log discipline (restoring monad, closures as data, commutation of safe closures) + vm_compute correspondence on histories + fault enumeration + property-oracle search'
 DESIGN_REF = 'DESIGN.md section 5, C13; Appendix A'
